@@ -284,7 +284,8 @@ func scenarioC13I(x *runner.X) {
 		if err != nil {
 			continue // fails loudly at open: fine
 		}
-		for i := 0; i < n; i++ {
+		for i := 0; i < 2*n; i++ { // every key twice through the same reader
+			i := i % n
 			got, err := ix.get(i)
 			if err != nil {
 				if compactindexsized.IsNotFound(err) {
